@@ -30,7 +30,7 @@ def specialised_harness(t: int, workdir: Path, m_max: int = 24, o_max: int = 3) 
     """Copy of the harness in which the template index is fixed (one CrossHair process per template) and the
     bounds on the name-assignment and ordering indices are those of the tier."""
     src = HARNESS.read_text()
-    src = src.replace("pre: 0 <= t < 14 and", f"pre: t == {t} and")
+    src = src.replace("pre: 0 <= t < 16 and", f"pre: t == {t} and")
     src = src.replace("0 <= m < 24", f"0 <= m < {m_max}").replace("0 <= o < 3", f"0 <= o < {o_max}")
     p = workdir / f"c11_t{t}_{m_max}_{o_max}.py"
     p.write_text(src)
@@ -73,7 +73,7 @@ def replay_native(fn: str, args, hashseed="0"):
 def run() -> int:
     t = tier()
     rep = Report(PROP, "other")
-    templates = list(range(14))
+    templates = list(range(16))
     seeds = ["0"] if t == "quick" else ["0", "1", "4242"]
     funcs = FUNCS
     timeout_s = 240 if t == "quick" else 1200
@@ -85,7 +85,7 @@ def run() -> int:
         "executed under CrossHair 0.0.110 (symbolic execution with z3) through vf/ch/c11_harness.py",
     ]
     rep.bounds = {
-        "templates": "14 product templates of 2-4 factors (the 4-factor ones are also presented with three levels of product nesting, left- and right-deep; idempotence is checked on a nested presentation) (same-first-child conditionals, population-tagged next to plain, sums, a sum collapsing to One, fractions incl. a One denominator, interventional terms)",
+        "templates": "16 product templates of 2-4 factors (two with counterfactual variables carrying two-element subscript sets) (the 4-factor ones are also presented with three levels of product nesting, left- and right-deep; idempotence is checked on a nested presentation) (same-first-child conditionals, population-tagged next to plain, sums, a sum collapsing to One, fractions incl. a One denominator, interventional terms)",
         "names": "assignments of the distinct names A,B,C,D to the template slots: quick the first 4, thorough all 24",
         "orderings": "quick 2, thorough 3",
         "presentations": "all factor permutations x 3 nestings x child/parent order reversed or not",
@@ -157,12 +157,46 @@ def run() -> int:
         else:
             rep.inconclusive += 1
             rep.inconclusive_samples.append({"condition": key, "output": short(out.strip(), 160)})
+    # hash-seed clause: the canonical forms of the template corpus, rendered seed-independently, must be identical in
+    # fresh interpreters started under different PYTHONHASHSEED values (a native differential run, not a solver query:
+    # the hash seed is not a value CrossHair can make symbolic)
+    seeds_x = ["0", "1", "2", "3", "7"] if t == "quick" else [str(i) for i in range(12)]
+    outs = {}
+    for hs in seeds_x:
+        code = f"import sys, json; sys.path[:0]=['{ROOT}','{REPO}/src']; from vf.ch import c11_harness as h; print(json.dumps(h.canonical_skeletons()))"
+        pr = subprocess.run([sys.executable, "-c", code], capture_output=True, text=True, env=dict(os.environ, PYTHONHASHSEED=hs))
+        if pr.returncode != 0:
+            rep.harness_errors.append(f"cross-seed corpus failed under PYTHONHASHSEED={hs}: {short(pr.stderr, 300)}")
+            continue
+        outs[hs] = {tuple(r[:6]): r[6] for r in __import__("json").loads(pr.stdout.strip().splitlines()[-1])}
+    if outs:
+        base_hs = sorted(outs)[0]
+        rep.cases += len(outs[base_hs])
+        rep.nontrivial.add("cross-seed-corpus")
+        rep.extra["cross_seed"] = {"seeds": sorted(outs), "expressions": len(outs[base_hs]), "note": "native differential run (not solver-decided)"}
+        reported = set()
+        for hs, d in outs.items():
+            for k, sk in d.items():
+                if sk != outs[base_hs].get(k) and k[0] not in reported:
+                    reported.add(k[0])
+                    rep.add_violation(Violation(PROP, [f"cross-seed template={k[0]}"], f"canonical form of template {k[0]} (name assignment {k[1]}, ordering {k[2]}, presentation {k[3:]}) differs between PYTHONHASHSEED={base_hs} and {hs}: {short(outs[base_hs].get(k), 150)} vs {short(sk, 150)}", {"property": PROP, "fn": "cross_seed", "args": list(k), "seeds": [base_hs, hs]}))
     rep.extra["explanation"] = "CrossHair (z3-backed symbolic execution of Python) explores the harness functions over symbolic int indices; a condition is discharged only when CrossHair reports 'Confirmed over all paths'; counterexamples are replayed natively in a fresh interpreter with the same hash seed."
     rep.extra["crosshair_wall_s"] = round(time.time() - t0, 1)
     return rep.finish()
 
 
 def replay(payload: dict) -> int:
+    if payload.get("fn") == "cross_seed":
+        import json
+
+        res = []
+        for hs in payload["seeds"]:
+            code = f"import sys, json; sys.path[:0]=['{ROOT}','{REPO}/src']; from vf.ch import c11_harness as h; print(json.dumps([r for r in h.canonical_skeletons() if r[:6] == {payload['args']!r}]))"
+            pr = subprocess.run([sys.executable, "-c", code], capture_output=True, text=True, env=dict(os.environ, PYTHONHASHSEED=hs))
+            res.append(pr.stdout.strip().splitlines()[-1] if pr.stdout.strip() else pr.stderr[-200:])
+            print(f"PYTHONHASHSEED={hs}: {res[-1][:300]}")
+        print("reproduced" if len(set(res)) > 1 else "not reproduced")
+        return 1 if len(set(res)) > 1 else 0
     bad, shown = replay_native(payload["fn"], payload["args"], payload.get("hashseed", "0"))
     print(f"{payload['fn']}{tuple(payload['args'])}: {shown}")
     print("reproduced" if bad else "not reproduced")
